@@ -228,7 +228,38 @@ func asZombieSubscriber(rng *rand.Rand) (*asScenario, []asStep) {
 
 // asConcurrentSiblingFailures: two siblings fail in one burst under a one-for-all supervisor whose decisions differ
 // from round to round (for instance Resume for the first fault, Restart for the second); mail is queued behind them.
+// asFailingRestartHook: an actor fails, its supervisor restarts it, a restart hook fails (by returning an error or by
+// panicking): the actor must become a zombie that runs no user code, blocks nobody and is released by a kill.
+func asFailingRestartHook(rng *rand.Rand) (*asScenario, []asStep) {
+	par := map[string]string{"t": "root", "a": "t", "b": "t", "c": "a"}
+	sc := &asScenario{Parent: par, Names: []string{"a", "b", "c", "t"}, Cfg: asConfig{Decision: map[string]string{}, Strategy: map[string]string{}}}
+	for _, n := range sc.Names {
+		sc.Cfg.Decision[n] = []string{"restart", "grestart"}[rng.Intn(2)]
+		sc.Cfg.Strategy[n] = []string{"ofo", "ofa"}[rng.Intn(2)]
+	}
+	victim := []string{"a", "c", "b"}[rng.Intn(3)]
+	sc.Cfg.HookFail = []string{victim, []string{"restarted", "prelaunch", "prerestart"}[rng.Intn(3)]}
+	if rng.Intn(2) == 0 {
+		sc.Cfg.HookFailMode = "panic"
+	}
+	steps := []asStep{{A: "spawn", X: "t"}}
+	if rng.Intn(2) == 0 {
+		steps = append(steps, asStep{A: "settle"})
+	}
+	steps = append(steps, asStep{A: "tell", X: victim, Op: "fail"})
+	for i := 0; i < 2+rng.Intn(3); i++ {
+		steps = append(steps, asStep{A: "tell", X: []string{victim, victim, "b", "t"}[rng.Intn(4)], Op: "nop", Burst: rng.Intn(2) == 0})
+	}
+	if rng.Intn(2) == 0 {
+		steps = append(steps, asStep{A: "kill", X: victim, Poison: rng.Intn(2) == 0})
+	}
+	return sc, steps
+}
+
 func asConcurrentSiblingFailures(rng *rand.Rand) (*asScenario, []asStep) {
+	if rng.Intn(2) == 0 {
+		return asFailingRestartHook(rng)
+	}
 	par := map[string]string{"t": "root", "a": "t", "b": "t", "c": "b", "d": "a"}
 	sc := &asScenario{Parent: par, Names: []string{"a", "b", "c", "d", "t"}, Cfg: asConfig{Decision: map[string]string{}, Strategy: map[string]string{}}}
 	decs := []string{"restart", "grestart", "stop", "gstop", "resume", "escalate"}
